@@ -17,8 +17,9 @@ func init() {
 	register(&propertyCheck{
 		id: "C44", level: "other", needs: loadNeeds{ssa: true},
 		decides: "the structural discipline that keeps stored secrets out of response bodies: every settings value that reaches a response under a request- or table-driven name passes one shared secret-name predicate, and that predicate is true for every setting constant classified as secret (a new constant that looks like a secret must be classified); " +
-			"every response payload (util.WriteJSON) whose static type contains a secret-bearing field (User.Password, DSN password fields, OAuth client secret fields) has that field overwritten with a constant on every path between the point where real data enters the value and the write, or is built field by field without it.",
-		misses: "secrets embedded in free-form strings (log text, error messages, connection strings), secrets returned by Ego-language services, responses written with w.Write directly from pre-encoded bytes.",
+			"every response payload (util.WriteJSON) whose static type contains a secret-bearing field (User.Password, DSN password fields, OAuth client secret fields) has that field overwritten with a constant on every path between the point where real data enters the value and the write, or is built field by field without it; " +
+			"the settings table that Ego code may not read covers every secret setting; the clear-text DSN password is followed across calls and reaches no error value and no response, and the connection string built from it is returned only after url.Parse accepted it.",
+		misses: "secrets in log text, secrets an Ego-language service computes itself, responses written with w.Write from pre-encoded bytes other than through util.ErrorResponse, what a database driver puts in its errors for a connection string that parses.",
 		run:    runC44,
 	})
 }
@@ -322,6 +323,8 @@ func runC44(w *World, r *Report) {
 
 	c44Payloads(w, r, serverPkgs)
 	c44SecretLoads(w, r, serverPkgs)
+	c44Restricted(w, r, defs)
+	c44ClearText(w, r)
 }
 
 // c44SecretLoads: R-C44-4.
